@@ -163,6 +163,19 @@ static void doBign96(const vx_cmd* c)
 	jInt("rcSign", e); jOct("sig", sig, 34); jInt("rcVerify", bign96Verify(P, oid, ol, hash, sig, pub));
 	e = bign96Sign2(sig2, P, oid, ol, hash, priv, 0, 0);
 	jInt("rcSign2", e); jOct("sig2", sig2, 34); jInt("rcVerify2", bign96Verify(P, oid, ol, hash, sig2, pub));
+	{	/* deterministic signing with the optional additional data t (empty, short, long): sign, then verify; twice the same */
+		static const size_t TL[] = { 0, 1, 40 }; long long rcs[9]; size_t k;
+		for (k = 0; k < 3; ++k)
+		{
+			octet* t = (octet*)xalloc(TL[k] ? TL[k] : 1); octet* s3 = (octet*)xalloc(34); octet* s4 = (octet*)xalloc(34); size_t j;
+			for (j = 0; j < TL[k]; ++j) t[j] = (octet)(0xA0 + 7 * j + k);
+			rcs[3 * k] = bign96Sign2(s3, P, oid, ol, hash, priv, t, TL[k]);
+			rcs[3 * k + 1] = rcs[3 * k] == ERR_OK ? bign96Verify(P, oid, ol, hash, s3, pub) : -1;
+			rcs[3 * k + 2] = (bign96Sign2(s4, P, oid, ol, hash, priv, t, TL[k]) == ERR_OK && memcmp(s3, s4, 34) == 0) ? 0 : 1;
+			free(t); free(s3); free(s4);
+		}
+		jIntArr("sign2t", rcs, 9);
+	}
 	jSep(); fprintf(vx_out, "\"alts\":[");
 	{
 		int first = 1; const char* s = alts;
